@@ -60,6 +60,7 @@ below the 1e-10 quantile of Binomial(shots, p_out + 1e-6).
 import copy
 import json
 import math
+import os
 import time
 
 import numpy as np
@@ -831,8 +832,6 @@ def realign_keep_blocks(doc):
 
 # ------------------------------------------------------------------ runner protocol
 def plan(tier, seed):
-    import os
-
     # self-test aid: leaves out the three if_test shapes the unchanged encoder mistranslates and does not report
     # the leaked-outcome crash, so that rc=1 of a mutant run is due to the mutant
     no_exotic = bool(os.environ.get("VERIF_C19_NO_EXOTIC"))
@@ -842,7 +841,7 @@ def plan(tier, seed):
         rows = [("k2-%d" % i, 2, 80, 45, 0) for i in range(2)] + [("k1-%d" % i, 1, 200, 45, 0) for i in range(2)] + \
                [("mixed-%d" % i, None, 500, 45, 0) for i in range(6)] + [("k0-%d" % i, 0, 600, 35, 0) for i in range(2)]
     else:
-        rows = [("k3-%d" % i, 3, 40, 250, 8) for i in range(2)] + [("k2-%d" % i, 2, 800, 250, 4) for i in range(2)] + \
+        rows = [("k3-%d" % i, 3, 400, 250, 2) for i in range(2)] + [("k2-%d" % i, 2, 800, 250, 4) for i in range(2)] + \
                [("k1-%d" % i, 1, 3000, 250, 0) for i in range(2)] + [("mixed-%d" % i, None, 6000, 250, 2) for i in range(5)] + \
                [("k0-0", 0, 8000, 180, 0)]
     for i, (name, fk, n, budget, big) in enumerate(rows):
@@ -888,9 +887,15 @@ def run_shard(spec):
         if not affordable(doc, case["cutoff_extra"], tier):
             ctx.c["resource_skips"] += 1
             continue
-        if fock_dim(d, cutoff) > BIG_DIM:     # rationed, and only early in the shard (one such case takes 10-60 s)
-            if big_left <= 0 or time.process_time() - c0 > 0.6 * budget:
+        if fock_dim(d, cutoff) > BIG_DIM:     # rationed, and only early in the shard (one such case takes 10-60 s
+            #                                       on an idle machine, many minutes on an overloaded one)
+            overloaded = os.getloadavg()[0] > 2.0 * (os.cpu_count() or 1)
+            if overloaded and big_left > 0:
+                ctx.obs.add("machine overloaded (load average > 2 x cores): circuits with fock dimension > %d were not run" % BIG_DIM)
+            if big_left <= 0 or overloaded or time.process_time() - c0 > 0.6 * budget:
                 ctx.c["big_cases_rationed"] += 1
+                if spec.get("force_k") == 3 and ctx.c["big_cases_rationed"] > 200:
+                    break     # a k3 shard has nothing else to do
                 continue
             big_left -= 1
         if fock_dim(d, cutoff) > 1500:
